@@ -873,3 +873,207 @@ Proof.
     pose proof (cf_getattr st i n) as C. destruct (getattr_m st i n) as [st1 g]. simpl in C.
     apply crel_cf. destruct g; exact C.
 Qed.
+
+(* ---------- supertype edits and class creation ---------- *)
+
+Lemma crel_set_supers st c ss : crel same_py st (set_supers st c ss).
+Proof.
+  unfold set_supers. destruct (getc st c) as [k|] eqn:G; [|apply crel_refl; exact same_py_refl].
+  eapply crel_py_setc; eauto. repeat split.
+Qed.
+
+Lemma getc_new_class st kn x :
+  getc (mkState (classes st ++ [kn]) (insts st) (flag st)) x =
+  if Z.eq_dec x (Z.of_nat (S (nclasses st))) then Some kn else getc st x.
+Proof.
+  unfold getc, nclasses. simpl classes. destruct (Z.leb_spec x 0) as [Le|Gt].
+  - destruct (Z.eq_dec x (Z.of_nat (S (length (classes st))))); [lia|reflexivity].
+  - destruct (Z.eq_dec x (Z.of_nat (S (length (classes st))))) as [E|N].
+    + assert (X : idx x = length (classes st)) by (unfold idx; lia).
+      rewrite X, nth_error_app2, Nat.sub_diag by lia. reflexivity.
+    + destruct (Nat.lt_ge_cases (idx x) (length (classes st))) as [L|L].
+      * apply nth_error_app1. assumption.
+      * assert (X : (length (classes st) < idx x)%nat) by (unfold idx in *; lia).
+        rewrite nth_error_app2 by lia.
+        destruct (idx x - length (classes st))%nat as [|m] eqn:Em; [lia|].
+        rewrite (proj2 (nth_error_None (classes st) (idx x))) by lia. destruct m; reflexivity.
+Qed.
+
+Lemma getc_beyond st : getc st (Z.of_nat (S (nclasses st))) = None.
+Proof.
+  unfold getc, nclasses. destruct (Z.leb_spec (Z.of_nat (S (length (classes st)))) 0); [reflexivity|].
+  apply nth_error_None. unfold idx. lia.
+Qed.
+
+(* the fresh class object: no bases yet, linearisation [c] *)
+Lemma GInv_new_class st ss :
+  GInv st ->
+  GInv (mkState (classes st ++ [mkCls [] [] ss [] [] [Z.of_nat (S (nclasses st))] []]) (insts st) (flag st)).
+Proof.
+  intros [L Co So (rk & Hrk)].
+  set (c := Z.of_nat (S (nclasses st))). set (kn := mkCls [] [] ss [] [] [c] []).
+  set (st1 := mkState (classes st ++ [kn]) (insts st) (flag st)).
+  assert (G1 : forall x, getc st1 x = if Z.eq_dec x c then Some kn else getc st x) by (intros x; apply getc_new_class).
+  pose proof (getc_beyond st) as Gc. fold c in Gc.
+  assert (Old : forall x k, getc st x = Some k -> getc st1 x = Some k).
+  { intros x k G. rewrite G1. destruct (Z.eq_dec x c); [subst; congruence|assumption]. }
+  assert (M1 : forall b m, mro st b = Some m -> mro st1 b = Some m).
+  { intros b m M. destruct (mro_Some_cases _ _ _ M) as [[E1 E2]|(k & G & E)].
+    - subst. reflexivity.
+    - subst m. apply mro_getc. apply Old. assumption. }
+  constructor.
+  - intros x k G. rewrite G1 in G. destruct (Z.eq_dec x c) as [E|N].
+    + inversion G; subst. exists []. split; reflexivity.
+    + destruct (L x k G) as (ms & Hm & Hl). exists ms. split; [|assumption].
+      rewrite <- Hm. apply map_opt_ext. intros b Hb.
+      destruct (lc_base_mro _ _ _ _ (L x k G) Hb) as (m & Em). rewrite Em. apply M1. assumption.
+  - intros y ky x G Hx N0. rewrite G1 in G. destruct (Z.eq_dec y c) as [E|N].
+    + inversion G; subst. destruct Hx.
+    + destruct (Co y ky x G Hx N0) as (kx & Gx & Hy). exists kx. split; [apply Old; assumption|assumption].
+  - intros x kx d G Hd. rewrite G1 in G. destruct (Z.eq_dec x c) as [E|N].
+    + inversion G; subst. destruct Hd.
+    + destruct (So x kx d G Hd) as (kd & Gd & Hx). exists kd. split; [apply Old; assumption|assumption].
+  - exists rk. intros x y Hy. apply (Hrk x y). unfold bases_fn in *. rewrite G1 in Hy.
+    destruct (Z.eq_dec x c) as [E|N]; [destruct Hy|assumption].
+Qed.
+
+(* ---------- every edit keeps the invariant ---------- *)
+
+Definition HInv (st : state) : Prop := flag st = false -> GInv st.
+
+Theorem step_GInv o st :
+  HInv st -> flag (next st o) = false -> GInv (next st o) /\ flag st = false.
+Proof.
+  intros HI F'. destruct (graph_op o) eqn:GO.
+  - destruct o; try discriminate; unfold next in *; simpl in *.
+    + (* NewClass *)
+      unfold new_class in *.
+      match type of F' with context [update_supertypes ?s1 ?c1] =>
+        destruct (update_supertypes s1 c1) as [st2 e] eqn:U;
+        assert (H1 : HInv s1) by (intros Ff; apply GInv_new_class; apply HI; exact Ff) end.
+      assert (F2 : flag st2 = false) by (destruct e; exact F').
+      destruct (update_supertypes_GInv _ _ _ _ H1 U F2) as (A & B & C).
+      split; [destruct e; exact A|exact B].
+    + (* AddSuper *)
+      destruct (getc st c) as [k|] eqn:G; simpl in *; [|split; [apply HI|]; assumption].
+      set (ss := if zmem s (c_supers k) then c_supers k else c_supers k ++ [s]) in *.
+      destruct (update_supertypes (set_supers st c ss) c) as [st2 e] eqn:U.
+      assert (H1 : HInv (set_supers st c ss)).
+      { intros Ff. eapply GInv_crel; [apply crel_set_supers|]. apply HI.
+        rewrite <- (crel_flag _ _ _ (crel_set_supers st c ss)). exact Ff. }
+      assert (F2 : flag st2 = false) by (destruct e; exact F').
+      destruct (update_supertypes_GInv _ _ _ _ H1 U F2) as (A & B & C).
+      split; [destruct e; exact A|]. rewrite <- (crel_flag _ _ _ (crel_set_supers st c ss)). exact B.
+    + (* RemoveSuper *)
+      destruct (getc st c) as [k|] eqn:G; simpl in *; [|split; [apply HI|]; assumption].
+      destruct (remove_first Z.eqb s (c_supers k)) as [ss|]; simpl in *; [|split; [apply HI|]; assumption].
+      destruct (update_supertypes (set_supers st c ss) c) as [st2 e] eqn:U.
+      assert (H1 : HInv (set_supers st c ss)).
+      { intros Ff. eapply GInv_crel; [apply crel_set_supers|]. apply HI.
+        rewrite <- (crel_flag _ _ _ (crel_set_supers st c ss)). exact Ff. }
+      assert (F2 : flag st2 = false) by (destruct e; exact F').
+      destruct (update_supertypes_GInv _ _ _ _ H1 U F2) as (A & B & C).
+      split; [destruct e; exact A|]. rewrite <- (crel_flag _ _ _ (crel_set_supers st c ss)). exact B.
+  - pose proof (step_other_crel o st GO) as C.
+    assert (Ff : flag st = false) by (rewrite <- (crel_flag _ _ _ C); exact F').
+    split; [|exact Ff]. eapply GInv_crel; [exact C|]. apply HI. exact Ff.
+Qed.
+
+(* histories *)
+Lemma history_GInv_from ops : forall st,
+  HInv st -> flag (fold_left next ops st) = false -> GInv (fold_left next ops st) /\ flag st = false.
+Proof.
+  induction ops as [|o r IH]; intros st HI F; simpl in *.
+  - split; [apply HI|]; assumption.
+  - assert (H1 : HInv (next st o)).
+    { intros Ff. destruct (step_GInv o st HI Ff) as [A _]. exact A. }
+    destruct (IH (next st o) H1 F) as [A B]. split; [exact A|].
+    destruct (step_GInv o st HI B) as [_ C]. exact C.
+Qed.
+
+Theorem history_GInv ops fl :
+  flag (fold_left next ops (empty_state fl)) = false -> GInv (fold_left next ops (empty_state fl)).
+Proof. intros F. apply (history_GInv_from ops); [intros _; apply GInv_empty|exact F]. Qed.
+
+(* the linearisations Python caches are those of the current bases, in every
+   state reached without installing the replacement *)
+Theorem history_consistent ops fl :
+  flag (fold_left next ops (empty_state fl)) = false -> consistent (fold_left next ops (empty_state fl)).
+Proof. intros F. apply GInv_consistent; [apply history_GInv|]; exact F. Qed.
+
+(* ---------- the theorems of MetaEditProofs.v for whole histories ---------- *)
+
+Lemma flag_false_initial ops fl : flag (fold_left next ops (empty_state fl)) = false -> fl = false.
+Proof.
+  intros F. destruct (history_GInv_from ops (empty_state fl) (fun _ => GInv_empty fl) F) as [_ H]. exact H.
+Qed.
+
+Lemma history_sound_facts ops fl :
+  sides ops (empty_state fl) -> flag (fold_left next ops (empty_state fl)) = false ->
+  Inv (fold_left next ops (empty_state fl)) /\ consistent (fold_left next ops (empty_state fl)).
+Proof. intros S F. split; [apply history_Inv; exact S|apply history_consistent; exact F]. Qed.
+
+Lemma history_full_facts ops fl :
+  wf_history ops (empty_state fl) -> flag (fold_left next ops (empty_state fl)) = false ->
+  Inv (fold_left next ops (empty_state fl)) /\ Full (fold_left next ops (empty_state fl)) /\
+  consistent (fold_left next ops (empty_state fl)).
+Proof.
+  intros W F. destruct (history_Inv_Full ops (empty_state fl) (Inv_empty fl) (Full_empty fl) W) as [I Fu].
+  split; [exact I|]. split; [exact Fu|apply history_consistent; exact F].
+Qed.
+
+Theorem history_visible_sound ops fl i n x :
+  let st := fold_left next ops (empty_state fl) in
+  sides ops (empty_state fl) -> flag st = false -> geti st i = Some x -> visible st i n ->
+  (exists d, in_closure st (i_cls x) d /\
+     ((exists f, declares_feat st d n f) \/ (exists s, declares_op st d n s) \/
+      (exists b, ns_get n (ns_of st d) = Some (EBeh b))))
+  \/ has_slot st i n.
+Proof.
+  intros st S F G V. destruct (history_sound_facts ops fl S F) as [I Co].
+  exact (visible_sound st i n x I Co F G V).
+Qed.
+
+Theorem history_declared_is_visible ops fl i x l d n :
+  let st := fold_left next ops (empty_state fl) in
+  wf_history ops (empty_state fl) -> flag st = false -> geti st i = Some x -> mro st (i_cls x) = Some l ->
+  in_closure st (i_cls x) d ->
+  ((exists f, declares_feat st d n f) \/ (exists s, declares_op st d n s)) ->
+  visible st i n.
+Proof.
+  intros st W F G M R D. destruct (history_full_facts ops fl W F) as (I & Fu & Co).
+  exact (declared_is_visible st i x l d n I Fu Co F G M R D).
+Qed.
+
+Theorem history_visible_iff_declared ops fl i x l n :
+  let st := fold_left next ops (empty_state fl) in
+  wf_history ops (empty_state fl) -> flag st = false -> geti st i = Some x -> mro st (i_cls x) = Some l ->
+  ns_get n (i_dict x) = None ->
+  (forall d b, ns_get n (ns_of st d) = Some (EBeh b) -> exists s, declares_op st d n s) ->
+  (visible st i n <->
+   exists d, in_closure st (i_cls x) d /\
+     ((exists f, declares_feat st d n f) \/ (exists s, declares_op st d n s))).
+Proof.
+  intros st W F G M D NB. destruct (history_full_facts ops fl W F) as (I & Fu & Co).
+  exact (visible_iff_declared st i x l n I Fu Co F G M D NB).
+Qed.
+
+Theorem history_declared_feature_lookup ops fl c l d n f :
+  let st := fold_left next ops (empty_state fl) in
+  wf_history ops (empty_state fl) -> flag st = false -> mro st c = Some l -> in_closure st c d ->
+  declares_feat st d n f ->
+  (forall z, In z l -> z <> d -> ns_get n (ns_of st z) = None) ->
+  class_lookup st c n = Some (EFeat f).
+Proof.
+  intros st W F M R D U. destruct (history_full_facts ops fl W F) as (I & Fu & Co).
+  exact (declared_feature_lookup st c l d n f I Fu Co F M R D U).
+Qed.
+
+Theorem history_isinstance_closure ops fl i c x l :
+  let st := fold_left next ops (empty_state fl) in
+  sides ops (empty_state fl) -> flag st = false -> geti st i = Some x -> mro st (i_cls x) = Some l -> c <> 0 ->
+  (isinstance_m st i c = true <-> in_closure st (i_cls x) c).
+Proof.
+  intros st S F G M N. destruct (history_sound_facts ops fl S F) as [I Co].
+  exact (isinstance_closure st i c x l I Co F G M N).
+Qed.
